@@ -22,6 +22,7 @@ PoolSmall == {<<>>, <<2>>, <<5, 1>>, <<9>>, <<1, 1, 4>>}
 PoolTiny == {<<>>, <<3>>, <<4, 2>>, <<8>>}
 PoolDup == {<<3>>, <<7, 3, 7>>, <<3, 3, 3, 3>>, <<15>>, <<1, 7>>}
 ADup == {4, 6, 9, 13}
+ADup2 == {4, 9}
 \* 0..2 words with lengths 1, 3, 7 and a few longer cells (20 cells)
 PoolQuick == SeqsUpTo({1, 3, 7}, 2) \cup {<<3, 3, 3>>, <<1, 7, 1>>, <<7, 1, 3>>, <<1, 1, 1>>, <<7, 7, 7>>, <<3, 1, 7>>, <<15>>}
 
